@@ -19,7 +19,7 @@ RULES = {
     "C05": "violation lattice: all combinations of generic violations x size lattice; counting handlers registered through the public API; oracle i-vi of DESIGN C05; non-trivial as C01",
     "C06": "dest-writing entry points on valid operands; oracle = equality with the reference model (libc semantics) and failure where the complete result does not fit; non-trivial as C01",
     "C08": "slack-nulling entry points, dirty dest; oracle = everything from the terminator to dmax is zero after success (prod) / terminator + exact result (noslack); non-trivial as C01",
-    "C10": "query entry points x all operand strings over the alphabet up to the bound x dmax/slen below/at/above; oracle = reference model built from the C standard semantics on the first dmax elements; operands unmodified; non-trivial as C01",
+    "C10": "query entry points x all operand strings over the alphabet up to the bound x dmax/slen below/at/above; the byte search and set functions once more over bytes that differ only in the top bit (a/0xE1, b/0xE2); oracle = reference model built from the C standard semantics on the first dmax elements; operands unmodified; non-trivial as C01",
 }
 
 
